@@ -10,6 +10,7 @@ skip_exc matrix.  Glom-detected failures are provoked directly and checked again
 documented subtype table.
 """
 import itertools
+from collections import OrderedDict
 
 from .. import env
 from ..util import call_base
@@ -20,7 +21,7 @@ glom = env.bind()
 import glom as g  # noqa: E402
 from glom import (T, S, A, GlomError, PathAccessError, CoalesceError, UnregisteredTarget, BadSpec, PathAssignError,  # noqa: E402
                   PathDeleteError, FoldError, MatchError, TypeMatchError, CheckError, Coalesce, Match, Check, Fold, Sum,
-                  Flatten, Merge, Assign, Delete, Spec, M, Switch, Or, And, Not, Val, Iter, glom as G)
+                  Flatten, Merge, Assign, Delete, Spec, M, Switch, Or, And, Not, Val, Iter, Path, glom as G)
 from glom.grouping import Group  # noqa: E402
 
 META = {
@@ -464,6 +465,80 @@ def target_raised_faults(col, rng, n_exc):
                 judge_escape(col, e, got, kw, cell, 'fault raised by the target at %s' % name, 'target access ' + name)
 
 
+class _LazyRows:
+    """an iterable whose iter() succeeds and whose n-th next() raises the planted exception (a generator body failing half way,
+    a cursor losing its connection): kind 'gen' is a real generator, 'iter' a hand-written iterator class"""
+    def __init__(self, raiser, items, kind):
+        self.raiser, self.items, self.kind = raiser, items, kind
+
+    def __iter__(self):
+        if self.kind == 'gen':
+            return self._gen()
+        return _LazyIt(self)
+
+    def _gen(self):
+        for it in self.items:
+            yield it
+        raise self.raiser.exc
+
+
+class _LazyIt:
+    __slots__ = ('rows', 'i')
+
+    def __init__(self, rows):
+        self.rows, self.i = rows, 0
+
+    def __iter__(self):
+        return self
+
+    def __next__(self):
+        if self.i >= len(self.rows.items):
+            raise self.rows.raiser.exc
+        self.i += 1
+        return self.rows.items[self.i - 1]
+
+
+def faults_raised_while_the_target_is_iterated(col, rng, n_exc):
+    """the fault is raised by the target's iterator after iter() succeeded (n items delivered first): under a list spec, Iter, Fold,
+    Sum, Flatten, Merge, Group, at top level, below a path and as a chain step.  (A failing iter() itself is reported by glom as
+    "failed to iterate", a detection of its own, and is not generated.)"""
+    from glom import Iter, Fold, Sum, Flatten, Merge, Pipe
+    from glom.grouping import Group
+    f = Raiser()
+    shapes = [
+        ('list-spec', lambda: [T], 'int'), ('list-spec-below-path', lambda: ('rows', [T]), 'int'), ('list-spec-chained', lambda: (T, [T], len), 'int'),
+        ('list-spec-in-dict', lambda: {'k': ('rows', [T])}, 'int'), ('nested-list-spec', lambda: [[T]], 'nested'),
+        ('Iter-all', lambda: Iter().all(), 'int'), ('Iter-map-all', lambda: Iter().map(T).all(), 'int'), ('Iter-chunked', lambda: (Iter().chunked(2), list), 'int'),
+        ('Iter-then-list', lambda: (Iter(), list), 'int'), ('Iter-below-path', lambda: ('rows', Iter().filter(T).all()), 'int'),
+        ('Fold', lambda: Fold(T, init=int), 'int'), ('Sum', lambda: Sum(), 'int'), ('Sum-below-path', lambda: Sum('rows'), 'int'),
+        ('Flatten', lambda: Flatten(), 'lists'), ('Flatten-lazy', lambda: (Flatten(init='lazy'), list), 'lists'), ('Merge', lambda: Merge(), 'dicts'),
+        ('Group-list', lambda: Group([T]), 'int'), ('Group-dict', lambda: Group({T: [T]}), 'int'), ('Pipe-list-spec', lambda: Pipe('rows', [T]), 'int'),
+    ]
+    always = [c for c in CATALOGUE if c[0] in ('ValueError', 'KeyError', 'TypeError', 'OSError', 'MyGlomErr', 'MyGlomErrPrefix', 'UserErr', 'FalsyErr')]
+    for name, mk, item_kind in shapes:
+        for ename, mkexc in always + rng.sample(CATALOGUE, n_exc):
+            probe = mkexc()
+            if isinstance(probe, StopIteration):
+                continue        # (the iterator protocol's own end marker)
+            for n_before in (0, 2):
+                for kind in ('gen', 'iter'):
+                    for cell, kw in matrix(probe):
+                        e = mkexc()
+                        f.exc = e
+                        items = {'int': [3, 1, 2], 'lists': [[1], [2], [3]], 'dicts': [{'a': 1}, {'b': 2}, {'c': 3}], 'nested': [[1], [2]]}[item_kind][:n_before]
+                        rows = _LazyRows(f, items, kind)
+                        if item_kind == 'nested':
+                            rows = [[1, 2], rows]
+                        below = 'rows' in repr(mk())
+                        target = {'rows': rows} if below else rows
+                        got = call_base(G, target, mk(), **kw)
+                        col.case(('target-iteration', name, ename, n_before, kind, cell), True)
+                        col.count('faults_injected')
+                        col.count('faults_raised_by_the_target_iterator')
+                        judge_escape(col, e, got, kw, cell, 'fault raised by the %d. next() of the target (%s) under %s' % (n_before + 1, kind, name),
+                                     'iteration of the target ' + name)
+
+
 class _EqualToAll:
     def __eq__(self, other): return True
     def __ne__(self, other): return False
@@ -549,6 +624,10 @@ def glom_detected(col):
         ('A without destination', 1, A, BadSpec), ('group bad spec', [1], Group('no strings'), BadSpec),
         ('group dict in list', [1], Group([{T: T}]), BadSpec), ('malformed spec', {}, 5, TypeError), ('malformed nested', {'a': 1}, {'k': 5}, TypeError),
         ('path on None', None, 'a', PathAccessError), ('index str', [1], 'x', PathAccessError),
+        # a segment that the container cannot even look up (unhashable, e.g. taken from JSON data): still a failed access
+        ('unhashable segment on dict', {'a': {}}, Path('a', ['x']), PathAccessError), ('unhashable segment on OrderedDict', OrderedDict(a=1), Path(['x']), PathAccessError),
+        ('unhashable T key on dict', {'a': {}}, T['a'][['x']], PathAccessError), ('dict-valued segment on dict', {}, Path({'k': 1}), PathAccessError),
+        ('unhashable segment on list', [1], Path(['x']), PathAccessError), ('set-valued segment below a path', {'a': {'b': {}}}, Path('a', 'b', {1}), PathAccessError),
         # a failure INSIDE the subspec of a reduction is that failure, not the reduction's own "target not iterable"
         ('unregistered inside Sum subspec', {'rows': 5}, Sum(('rows', [T])), UnregisteredTarget),
         ('unregistered inside Flatten subspec', {'rows': None}, Flatten(('rows', [T])), UnregisteredTarget),
@@ -636,5 +715,8 @@ def run(ctx):
         col.require('faults_inside_other_constructs', 500)
     target_raised_faults(col, rng, 2 if not ctx.thorough else 8)
     col.require('target_raised_faults', 500)
+    if ctx.shard == 0 or ctx.thorough:
+        faults_raised_while_the_target_is_iterated(col, rng, 1 if not ctx.thorough else 4)
+        col.require('faults_raised_by_the_target_iterator', 500)
     for i in range(ctx.n(700, 4000)):
         fault_cases(col, rng, 3 if not ctx.thorough else 5)
